@@ -295,8 +295,9 @@ def _is_empty(seq):
     return z3.is_app(seq) and seq.decl().kind() == z3.Z3_OP_SEQ_EMPTY
 
 
-def new_dict(st, items, kty=None, vty=None):
+def new_dict(st, items, kty=None, vty=None, infer_values=False):
     a = alloc(st, K_DICT)
+    declared_v = vty
     ks = z3.K(Val, FALSE)
     vsm = z3.K(Val, VNone)
     n = z3.IntVal(0)
@@ -306,6 +307,8 @@ def new_dict(st, items, kty=None, vty=None):
         vsm = z3.Store(vsm, k.term, v.term)
         kty = Ty.join(kty, k.ty)
         vty = Ty.join(vty, v.ty)
+    if declared_v is None and not infer_values:
+        vty = Ty.ANY        # a dict display does not fix the type of values stored later
     st.DK = z3.Store(st.DK, a, ks)
     st.DV = z3.Store(st.DV, a, vsm)
     st.DSZ = z3.Store(st.DSZ, a, z3.simplify(n))
